@@ -46,9 +46,21 @@ class Parser::ParserImpl {
   /// @}
 
   void getNextNonCommentToken() {
-    do {
+    while (true) {
       lexer.lex(tok);
-    } while (tok.tokenKind == Token::Kind::Comment);
+      if (tok.tokenKind != Token::Kind::Comment)
+        break;
+
+      // As in Ninja, a line which holds nothing but a comment is dropped
+      // together with its newline, so that it does not end the indented
+      // bindings of the declaration it sits in.
+      if (tok.column == 0) {
+        lexer.lex(tok);
+        if (tok.tokenKind != Token::Kind::Newline &&
+            tok.tokenKind != Token::Kind::Comment)
+          break;
+      }
+    }
   }
 
   /// Consume the current 'peek token' and lex the next one.
